@@ -661,8 +661,14 @@ impl<'a> ParserState<'a> {
         let text = self.get_token_text(token);
         if text.len() > 2 && (text.starts_with("0x") || text.starts_with("0X")) {
             match u64::from_str_radix(&text[2..], 16) {
-                Ok(num_u64) => Ok((num_u64.as_(), true)),
-                Err(_) => Err(ParserError::malformed_number(self, context, text)),
+                Ok(num_u64)
+                    if std::mem::size_of::<T>() >= 8
+                        || (num_u64 >> (8 * std::mem::size_of::<T>())) == 0 =>
+                {
+                    Ok((num_u64.as_(), true))
+                }
+                // not a hex number, or the value does not fit into the target type
+                _ => Err(ParserError::malformed_number(self, context, text)),
             }
         } else {
             match text.parse() {
